@@ -584,6 +584,10 @@ def check_model_unchanged(ctx, fi):
         seen.add(k)
         n += 1
         bad = sorted(t for t in site.origins if t.startswith(('S:', 'P:', 'Pe:')) and not t.endswith(':self'))
+        # memo tables / their stamps on the model are bookkeeping, judged on their own by the memo engine (memo-key)
+        from ..engines import memo as _memo
+        info_ = _memo.ClassInfo(ctx.repo, fi.module, 'GraphicalModel')
+        bad = [t for t in bad if not (t.startswith('S:') and (_memo.is_table(info_, t[2:]) or t[2:].endswith('_stamp')))]
         ctx.ob('model-unchanged', fi, site.node, not bad,
                '%s acts on %s' % (site.what, 'objects of this call' if not bad else
                                   'the model\'s own state (%s): the next call on the same model generates from the modified state' % ', '.join(bad)))
